@@ -102,9 +102,15 @@ def gen(rng, tier):
                               rng.random() < 0.4])
             elif k < 0.83:
                 burst.append(['room_emit', rng.choice(NSS[:2]), 'R%d' % tok])
-            elif k < 0.87:
+            elif k < 0.86:
                 # an emit with a callback to a room the offender is in too
                 burst.append(['room_cb', '/', 'Q%d' % tok])
+            elif k < 0.88:
+                # an emit with a callback to the OFFENDER; the callback
+                # relays the answer to a bystander (and takes a moment);
+                # the offender answers twice
+                burst.append(['relay_cb', rng.randrange(cfg['nby']),
+                              'Y%d' % tok, rng.random() < 0.5])
             elif k < 0.94:
                 burst.append(['cb_emit', rng.randrange(cfg['nby']),
                               rng.choice(NSS[:2]), 'G%d' % tok])
@@ -357,7 +363,10 @@ def _run(case, cfg, w):
             base_mem = tracemalloc.get_traced_memory()[0]
         for o in burst:
             k = o[0]
-            if k == 'off_reopen':
+            if k == 'off_reopen' or k == 'relay_cb':
+                # (relay_cb: the offender starts from a clean transport, so
+                # that its two ACKs are not swallowed as attachments of
+                # something it left half-sent)
                 if sc.alive('off'):
                     off.sever(0.0)
                     w.settle()
@@ -369,6 +378,8 @@ def _run(case, cfg, w):
                         r['absorbed'] = True
                 tainted[0] = False
                 rejected_only = False
+            if k == 'off_reopen':
+                pass
             elif k == 'off_burst':
                 rejected_only = False
                 if sc.alive('off'):
@@ -426,6 +437,45 @@ def _run(case, cfg, w):
                 for b in range(nby):
                     expected_rx[b].append(('EVENT', ns, 'ANYID', trepr(
                         ['q', tag])))
+            elif k == 'relay_cb':
+                _, b, tag, one_payload = o
+                osid = sc.sid('off', '/')
+                if not osid or not sc.alive('off') or tainted[0] or \
+                        not sc.alive(b):
+                    continue
+                bsid = by_sids[(b, '/')]
+                if w.mode == 'async':
+                    async def relay(*a, tag=tag, bsid=bsid):
+                        import asyncio
+                        await srv.emit('relay', tag, to=bsid, namespace='/')
+                        await asyncio.sleep(0.005)
+                else:
+                    def relay(*a, tag=tag, bsid=bsid):
+                        srv.emit('relay', tag, to=bsid, namespace='/')
+                        w.kernel.sleep(0.005)
+                n0 = len(off.rx)
+                w.api('s', 'emit', 'q', tag, to=osid, namespace='/',
+                      callback=relay)
+                w.settle()
+                ids = [r['pkt'].id for r in off.rx[n0:]
+                       if r['pkt'].base == sio.EVENT
+                       and r['pkt'].data == ['q', tag]]
+                if ids and ids[0] is not None:
+                    w.rec.count('fault.offender_replays_ack')
+                    # (python-socketio has engine.io deliver one client's
+                    # messages one after the other; the replay is handled
+                    # concurrently only if it comes in on a second channel,
+                    # an HTTP POST to the session)
+                    if one_payload:
+                        off.post_pkts([(sio.ACK, '/', ids[0], [tag])])
+                        off.send_pkt(sio.ACK, '/', ids[0], [tag])
+                    else:
+                        off.send_pkt(sio.ACK, '/', ids[0], [tag])
+                        off.post_pkts([(sio.ACK, '/', ids[0], [tag])])
+                    expected_rx[b].append(pkt_key(sio.Pkt(
+                        sio.EVENT, '/', None, ['relay', tag])))
+                    rejected_only = False
+                    w.settle()     # (before the offender does anything else)
             elif k == 'cb_emit':
                 _, b, ns, tag = o
                 sid = by_sids[(b, ns)]
